@@ -7,13 +7,13 @@ props = [json.loads(l) for l in open(V + '/properties.jsonl')]
 # id -> (category, text, note, technique, design_ref)
 BUILT = {
  'C01': ('model_checking',
-   'TLC checks the declarative statement of the documented layering rules (BklProps!C01Props: MergeIsDocumented, Preserved, Concat, ScalarWins, DeleteRemoves, ReplaceIsChild) on every (document, patch) pair of the bounded chain model MC_Merge and emits every explored transition; each is replayed on the real library through MergeDocument. In the other direction thousands of random 2-4 layer chains, generated relative to the real merged state, are recorded from the real library and validated event by event against the Parser machine of the specification (BklTrace). Small-scope exhaustive plus sampled: the rules are per-node case analyses, so small trees reach every case.',
+   'TLC checks the declarative statement of the documented layering rules (BklProps!C01Props: MergeIsDocumented, Preserved, Concat, ScalarWins, DeleteRemoves, ReplaceIsChild) on every (document, patch) pair of the bounded chain model MC_Merge (chains of up to 4 layers, the chain is part of the state) and emits every explored transition with its whole chain; each chain is replayed on ONE live Parser through MergeDocument, so that state shared between positions by earlier layers takes part. In the other direction thousands of random 2-4 layer chains, generated relative to the real merged state, are recorded from the real library and validated event by event against the Parser machine of the specification (BklTrace). Small-scope exhaustive plus sampled: the rules are per-node case analyses, so small trees reach every case.',
    'Trusts TLC, the tv projection between Go values and tagged trees, and that MergeDocument+Documents expose the merge result. Integral-valued floats are outside the generated domain.',
    'TLA+ spec (BklMerge/BklParser/BklProps) + TLC bounded model with transition replay on the code + TLC trace validation of recorded runs', '6 C01'),
 
  'C02': ('model_checking',
-   'TLC explores every call history (exhaustive to the stated length) of the Parser machine over the C02 alphabet (base streams of 1-3 documents, patches with $match absent / {} / pattern / $invert / null / miss, parents = base layer or previous patch) with the history kept in the state, asserts OrderPreserved, OnlyTargetsChange, AsIfAlone and AppendIsPatch on every step, and prints each history; the harness drives ONE live Parser along each history and compares Documents() after every call. Random streams (1-4 base documents, 1-3 layers of 1-3 documents) recorded from the real library are validated call by call against the same machine.',
-   'Trusts TLC and the tv projection. The file route (MergeFileLayers) of the quantifier is exercised by the C03 check, which uses the same Parser machine.',
+   'TLC explores every call history (exhaustive to the stated length) of the Parser machine over the C02 alphabet (base streams of 1-3 documents, patches with $match absent / {} / pattern / $invert / null / miss, parents = base layer or previous patch) with the history kept in the state, asserts OrderPreserved, OnlyTargetsChange, AsIfAlone and AppendIsPatch on every step, and prints each history; the harness drives ONE live Parser along each history and compares Documents() after every call. Random streams (1-4 base documents, 1-3 layers of 1-3 documents) recorded from the real library are validated call by call against the same machine, and the same kind of streams written as multi-document layer files (a <- a.b <- a.b.c) are run through the real bkl binary and validated against RunLayers together with their step logs.',
+   'Trusts TLC, the tv projection and the harness file emitters.',
    'TLA+ Parser machine (BklParser) + TLC bounded history model (MC_Parser, family C02) replayed on live Parsers + TLC trace validation', '6 C02'),
  'C19': ('model_checking',
    'TLC explores every interleaving (exhaustive to the stated length) of MergeDocument / Documents / OutputDocuments / Output calls over documents using $merge, $replace, $repeat, interpolation and $output, checks the action property ObservationIsPure, and prints each history with the expected state and outputs after every call; the harness drives one live Parser per history and compares Documents(), the outputs and the output bytes of repeated calls. Random histories (up to 8 calls, generated directive-laden documents, three output formats) recorded from the real library are validated by TLC: outputs must equal the evaluation of the merged state, Documents() must equal the merged state, and repeated output calls on one state must have equal digests.',
@@ -46,7 +46,7 @@ BUILT = {
    'TLA+ spec + TLC bounded universe (MC_Eval C13) with replay + trace validation with hand-assembled expectations', '6 C13'),
 
  'C03': ('model_checking',
-   'TLC evaluates the resolver machine (BklFiles: $parent directive, then symlink, then filename; depth-first, parents before child, no de-duplication) composed with the Parser machine on every layout of the bounded model MC_Files (filename chains of depth 1-4 under every rotation of 5 extensions, virtual inputs, every missing layer, the same chains written with $parent, 15 $parent forms, $parent in a second document, symlinks, several inputs with and without -P, diamonds), asserts BaseFirst / ParentEqFilename / MissingIsError / SkipParents on the order lists, and each layout is materialised in a fresh directory and run through the real bkl binary. Random layouts (two chains, depth <= 4, mixed extensions, all $parent forms, two-document files, symlinked and virtual inputs, -P) are run through the real binary and validated by TLC against RunLayers.',
+   'TLC evaluates the resolver (BklFiles as a function, BklResolver as a small-step machine with one action per step the program reports in its -v log; invariants StackIsChain, NoFileTwiceOnStack, ParentsBeforeChild, LoadedBeforeMerged on every intermediate state and RefinesRunLayers at the end) composed with the Parser machine on every layout of the bounded model MC_Files (filename chains of depth 1-4 under every rotation of 5 extensions, virtual inputs, every missing layer, the same chains written with $parent, 15 $parent forms, $parent in a second document, symlinks, several inputs with and without -P, diamonds, equal file names in two directories, layers read from standard input), asserts BaseFirst / ParentEqFilename / MissingIsError / SkipParents on the order lists, and each layout is materialised in a fresh directory and run through the real bkl -v, whose output and step log must equal the specification's. Random layouts (two chains, depth <= 4, mixed extensions, all $parent forms, two-document files, symlinked and virtual inputs, -P) are run through the real binary and validated by TLC against RunLayers and, step by step, against the small-step resolver.',
    'Trusts TLC, the tv projection and the harness file emitters (encoding/json, yaml.v3, go-toml used as writers). Layouts where two files provide one layer name are excluded, as the property states. A symlink keeps its target\'s extension (the format is taken from the name).',
    'TLA+ resolver+Parser machines (BklFiles) + TLC bounded layout model with replay on the real binary + TLC trace validation of recorded runs', '6 C03'),
  'C18': ('model_checking',
